@@ -3,7 +3,7 @@
    assert_unreachable, le ge sle sge ne ceil32, select), tied to vyper/ir/compile_ir.py by exact output equality on
    seeded random trees; the opcode tables are regenerated from the source (GenUtils.v). *)
 From Coq Require Import ZArith List String Lia.
-From Verif Require Import Base.Word256 Base.PyInt C15.Syntax C15.GenUtils C15.Peephole C15.Lower C15.LowerSound C15.LowerFlow C15.FlowSound.
+From Verif Require Import Base.Word256 Base.PyInt C15.Syntax C15.GenUtils C15.Peephole C15.Lower C15.LowerSound C15.LowerFlow C15.FlowSound C15.RetRewrite C15.RetRewriteSound.
 Import ListNotations.
 Open Scope Z_scope.
 
@@ -19,7 +19,7 @@ Proof. exact lower_pure_sound. Qed.
 Print Assumptions lower_sound.
 
 (* closed expressions, from an empty stack *)
-Definition lst0 : lst := {| cnt := 0; revl := None; labels := []; lh := [] |}.
+Definition lst0 : lst := {| cnt := 0; revl := None; labels := []; lh := []; dsegs := [] |}.
 Corollary lower_closed_sound :
   forall e code s' pf v,
     lower 64 [] None 0 e lst0 = Ok (code, s') -> peval pf [] e = Some v -> runs code [] [v].
@@ -105,3 +105,40 @@ Proof.
   intros o stk stk' i k H Ef. rewrite Ef in H. destruct (Nat.leb i (List.length stk)) eqn:L; [|discriminate].
   apply Nat.leb_le in L. inversion H; subst. split; [exact L|]. rewrite app_length, repeat_length, skipn_length. lia.
 Qed.
+
+(* _rewrite_return_sequences (RetRewrite.v, tied by exact output of compile_to_assembly on whole compiled contracts).
+   The pass checks ONLY leaf names (ret_ofst / ret_len under `return`; return_pc as first or later argument of `exit_to`;
+   return_buffer among the parameters of the enclosing label); it is the calling convention, not an optimisation:
+   `exit_to` has no lowering of its own.  What it relies on, and what holds in the frames the front end builds
+   (checked on every compiled contract by the shape check in tools/checks/c15.py): *)
+Theorem return_sequence_identity_elsewhere : forall e ps, plain e = true -> rw ps e = Ok e.
+Proof. intros e ps. apply rw_plain. Qed.
+Print Assumptions return_sequence_identity_elsewhere.
+Theorem return_sequence_return_sound :
+  (forall f bd s, lower (S (S f)) exit_frame bd 2 ret_orig s = Ok ([Op "DUP2"; Op "DUP2"; Op "RETURN"], s)) /\
+  (forall f bd s, lower (S (S f)) exit_frame bd 2 (Node "return" [pass_; pass_]) s = Ok ([Op "RETURN"], s)) /\
+  (forall ofst len rest, run_code [Op "DUP2"; Op "DUP2"] (ofst :: len :: rest) = Some (ofst :: len :: ofst :: len :: rest)) /\
+  (* ... and only at that height *)
+  (forall c ofst len rest,
+     run_code [Op "DUP3"; Op "DUP3"] (c :: ofst :: len :: rest) = Some (ofst :: len :: c :: ofst :: len :: rest) /\
+     (c <> ofst -> firstn 2 (c :: ofst :: len :: rest) <> [ofst; len])).
+Proof.
+  split; [exact lower_return_orig|]. split; [exact lower_return_rw|]. split; [exact return_rewrite_sound|].
+  exact return_rewrite_needs_height.
+Qed.
+Print Assumptions return_sequence_return_sound.
+Theorem return_sequence_exit_sound :
+  forall (V : Type) (exec : string -> list (sv V) -> option (list (sv V))) (ofs : string -> Z -> sv V) (truthy : sv V -> bool),
+  (forall x r, exec "POP" (x :: r) = Some r) ->
+  forall dest code pc p, pos dest code = Some p ->
+  (forall rb rpc rest, nth_error code pc = Some (Op "POP") -> nth_error code (S pc) = Some (PushLbl dest) ->
+     nth_error code (S (S pc)) = Some (Op "JUMP") ->
+     step3 V exec ofs truthy code pc (rb :: rpc :: rest) = Some (p, rpc :: rest)) /\
+  (forall l q rest, nth_error code pc = Some (Op "JUMP") -> pos l code = Some q ->
+     mstep V exec ofs truthy code pc (SL V l :: rest) = Some (q, rest)).
+Proof.
+  intros V exec ofs truthy PS dest code pc p DP. split.
+  - intros. eapply exit_buf_sound; eauto.
+  - intros. eapply exit_return_sound; eauto.
+Qed.
+Print Assumptions return_sequence_exit_sound.
